@@ -104,8 +104,8 @@ pub fn ent_name(e: u64) -> Option<&'static str> {
     })
 }
 
-pub const SHAPES: [&str; 9] = [
-    "ok", "none", "extra", "null", "wrongtype", "missing", "big", "notobj", "badjson",
+pub const SHAPES: [&str; 10] = [
+    "ok", "none", "extra", "null", "wrongtype", "missing", "big", "notobj", "badjson", "ukey",
 ];
 pub fn shape_code(s: &str) -> Option<u64> {
     SHAPES.iter().position(|x| *x == s).map(|p| p as u64)
@@ -113,6 +113,12 @@ pub fn shape_code(s: &str) -> Option<u64> {
 /// the JSON stored in the row and its content tag (as printed in the table dump)
 pub fn json_of(shape: &str, v: u64) -> Option<(Option<String>, u64)> {
     let code = shape_code(shape)?;
+    if shape == "ukey" {
+        // the JSON of a sys.UserAuth row: key `v`, enabled (conforms to that entity only)
+        let k = key(v % NKEYS);
+        let j = format!("{{\"32\":\"{}\",\"33\":true}}", base64_encode(&k.export_verifying_key()));
+        return Some((Some(j), 1_000_000 + 2 * (v % NKEYS) + 1));
+    }
     let tag = if code == 1 { 1000 } else { v + 1000 * code };
     let j = match shape {
         "ok" => Some(format!("{{\"32\":\"v{}\"}}", v)),
